@@ -1159,6 +1159,11 @@ class Interp:
                         out.append((ctl, v, s4))
             return out
         if fv[0] == "fnref":
+            if len(fv) > 2 and fv[2] and fv[2].rstrip().endswith("}") and " {" in fv[2] and fv[1] not in self.facts.fns:
+                # a trait method named through the trait (`.map(License::from)`): the fn item type names the resolved impl
+                resolved = fv[2].rstrip()[:-1].rsplit(" {", 1)[1]
+                if resolved in self.facts.fns:
+                    fv = ("fnref", resolved, fv[2])
             if len(fv) > 2 and fv[2] and " -> " in fv[2] and fv[2].rstrip().endswith("}"):
                 rty = fv[2].rsplit(" {", 1)[0].split(" -> ", 1)[1]
                 n = dict(n if isinstance(n, dict) else {}, ty=rty)
